@@ -204,9 +204,6 @@ def run_check(check_id, tier, seed, workers=None, max_report=None, quiet=False):
     t0 = time.time()
     spec = checks.CHECKS[check_id]
     legs = checks.legs_for(check_id, tier)
-    if os.environ.get('DSIM_ONLY_LEG'):      # development aid: restrict to legs whose name contains the given text (never used by registered commands)
-        legs = [l for l in legs if os.environ['DSIM_ONLY_LEG'] in l['name']]
-        checks._cache[(check_id, tier)] = legs
     workers = workers or int(os.environ.get('DSIM_WORKERS', '0')) or min(16, os.cpu_count() or 1)
     out_lines = []
 
